@@ -187,6 +187,28 @@ def hostile_doc(rng, doc):
             v = v + 'Q' * (mx + 1 - len(v))        # make it too long so that it is echoed
         faults.set_value(d.recs[i], ep, sp, v)
         n += 1
+    # values of the envelope that the acknowledgement copies into its own header and AK1/AK2: sender/receiver ids and codes, control numbers, ST03
+    if rng.random() < 0.6:
+        short = [h for h in HOSTILE if len(h) <= 9]
+        for what in rng.sample(['gs02', 'gs03', 'gs06', 'st02', 'st03', 'isa06', 'isa08', 'st01'], rng.randint(1, 3)):
+            v = rng.choice(short)
+            for r in d.recs:
+                sid = r.node.id
+                if what == 'gs02' and sid == 'GS':
+                    r.vals[1] = v
+                elif what == 'gs03' and sid == 'GS':
+                    r.vals[2] = v
+                elif what == 'gs06' and sid in ('GS', 'GE'):
+                    r.vals[5 if sid == 'GS' else 1] = v
+                elif what == 'st02' and sid in ('ST', 'SE'):
+                    r.vals[1] = v
+                elif what == 'st03' and sid == 'ST' and len(r.vals) >= 3:
+                    r.vals[2] = v
+                elif what == 'st01' and sid == 'ST':
+                    r.vals[0] = v[:3]
+                elif what in ('isa06', 'isa08') and sid == 'ISA':
+                    r.vals[5 if what == 'isa06' else 7] = v.ljust(15)
+            n += 1
     return d, n
 
 
